@@ -218,6 +218,18 @@ class StmtMixin:
         else:
             self.exec_block(st.orelse, fr)
 
+    # ------------------------------------------------------------- match
+    def st_Match(self, st, fr):
+        """`match` is executed as the if/elif chain it abbreviates: the subject is evaluated once, each case pattern becomes a test expression
+        over it (class pattern -> isinstance + attribute sub-patterns, value -> ==, singleton -> is, or-pattern -> or, sequence -> length +
+        element tests) and its captures become assignments; everything is then handled by the ordinary expression machinery."""
+        cache = self.repo.__dict__.setdefault("_match_desugar", {})
+        if id(st) not in cache:
+            cache[id(st)] = (st, _desugar_match(st, fr.fi, self.repo))
+        tmp, chain = cache[id(st)][1]
+        self.store_name(tmp, self.eval(st.subject, fr), fr, None)
+        self.exec_block(chain, fr)
+
     def st_While(self, st, fr):
         from .interp import _Break, _Continue, _Trunc
 
@@ -576,3 +588,140 @@ def subst_star(v, n, _d=0):
     if isinstance(v, list):
         return [r(a) for a in v]
     return v
+
+
+class _MatchUnsupported(Exception):
+    pass
+
+
+def _desugar_match(st, fi, repo):
+    """-> (temp name, [If chain]) equivalent to the match statement."""
+    tmp = f"__match_{st.lineno}_{st.col_offset}"
+
+    def load(expr):
+        return expr
+
+    def subj_name():
+        return ast.Name(id=tmp, ctx=ast.Load())
+
+    def conj(tests):
+        tests = [t for t in tests if not (isinstance(t, ast.Constant) and t.value is True)]
+        if not tests:
+            return ast.Constant(value=True)
+        return tests[0] if len(tests) == 1 else ast.BoolOp(op=ast.And(), values=tests)
+
+    def pat(p, subj):
+        """-> (test expr, [(name, expr)] captures).  Or-patterns with captures are expanded by the caller."""
+        if isinstance(p, ast.MatchValue):
+            return ast.Compare(left=subj, ops=[ast.Eq()], comparators=[p.value]), []
+        if isinstance(p, ast.MatchSingleton):
+            return ast.Compare(left=subj, ops=[ast.Is()], comparators=[ast.Constant(value=p.value)]), []
+        if isinstance(p, ast.MatchAs):
+            if p.pattern is None:
+                return ast.Constant(value=True), ([(p.name, subj)] if p.name else [])
+            t, c = pat(p.pattern, subj)
+            return t, c + [(p.name, subj)]
+        if isinstance(p, ast.MatchOr):
+            parts = [pat(q, subj) for q in p.patterns]
+            if any(c for _, c in parts):
+                raise _MatchUnsupported("or-pattern with captures nested inside another pattern")
+            return ast.BoolOp(op=ast.Or(), values=[t for t, _ in parts]), []
+        if isinstance(p, ast.MatchClass):
+            tests = [ast.Call(func=ast.Name(id="isinstance", ctx=ast.Load()), args=[subj, p.cls], keywords=[])]
+            caps = []
+            names = list(p.kwd_attrs)
+            subs = list(p.kwd_patterns)
+            if p.patterns:
+                cname = ast.unparse(p.cls)
+                if cname in ("int", "str", "float", "bool", "bytes", "list", "tuple", "dict", "set", "frozenset", "bytearray") and len(p.patterns) == 1:
+                    t, c = pat(p.patterns[0], subj)
+                    tests.append(t)
+                    caps += c
+                else:
+                    cq = repo.resolve_expr(fi.module, p.cls)
+                    ci = repo.classes.get(cq) if cq else None
+                    fields = list(ci.fields) if ci is not None and ci.fields else None
+                    if fields is None or len(fields) < len(p.patterns):
+                        raise _MatchUnsupported(f"positional class pattern for {cname}: field order unknown")
+                    names = fields[:len(p.patterns)] + names
+                    subs = list(p.patterns) + subs
+            for a, q in zip(names, subs):
+                t, c = pat(q, ast.Attribute(value=subj, attr=a, ctx=ast.Load()))
+                tests.append(t)
+                caps += c
+            return conj(tests), caps
+        if isinstance(p, ast.MatchSequence):
+            star = [i for i, q in enumerate(p.patterns) if isinstance(q, ast.MatchStar)]
+            n = len(p.patterns)
+            tests = [ast.Call(func=ast.Name(id="isinstance", ctx=ast.Load()),
+                              args=[subj, ast.Tuple(elts=[ast.Name(id="list", ctx=ast.Load()), ast.Name(id="tuple", ctx=ast.Load())], ctx=ast.Load())], keywords=[])]
+            ln = ast.Call(func=ast.Name(id="len", ctx=ast.Load()), args=[subj], keywords=[])
+            caps = []
+            if not star:
+                tests.append(ast.Compare(left=ln, ops=[ast.Eq()], comparators=[ast.Constant(value=n)]))
+                for i, q in enumerate(p.patterns):
+                    t, c = pat(q, ast.Subscript(value=subj, slice=ast.Constant(value=i), ctx=ast.Load()))
+                    tests.append(t)
+                    caps += c
+            else:
+                k = star[0]
+                tests.append(ast.Compare(left=ln, ops=[ast.GtE()], comparators=[ast.Constant(value=n - 1)]))
+                for i, q in enumerate(p.patterns):
+                    if i < k:
+                        idx = ast.Constant(value=i)
+                    elif i > k:
+                        idx = ast.UnaryOp(op=ast.USub(), operand=ast.Constant(value=n - i))
+                    else:
+                        if q.name:
+                            hi = None if n - 1 - k == 0 else ast.UnaryOp(op=ast.USub(), operand=ast.Constant(value=n - 1 - k))
+                            sl = ast.Slice(lower=ast.Constant(value=k), upper=hi, step=None)
+                            caps.append((q.name, ast.Call(func=ast.Name(id="list", ctx=ast.Load()),
+                                                          args=[ast.Subscript(value=subj, slice=sl, ctx=ast.Load())], keywords=[])))
+                        continue
+                    t, c = pat(q, ast.Subscript(value=subj, slice=idx, ctx=ast.Load()))
+                    tests.append(t)
+                    caps += c
+            return conj(tests), caps
+        if isinstance(p, ast.MatchMapping):
+            tests = [ast.Call(func=ast.Name(id="isinstance", ctx=ast.Load()), args=[subj, ast.Name(id="dict", ctx=ast.Load())], keywords=[])]
+            caps = []
+            for kx, q in zip(p.keys, p.patterns):
+                tests.append(ast.Compare(left=kx, ops=[ast.In()], comparators=[subj]))
+                t, c = pat(q, ast.Subscript(value=subj, slice=kx, ctx=ast.Load()))
+                tests.append(t)
+                caps += c
+            if p.rest:
+                raise _MatchUnsupported("mapping pattern with **rest")
+            return conj(tests), caps
+        raise _MatchUnsupported(type(p).__name__)
+
+    def alternatives(p):
+        """Top-level or-patterns (possibly wrapped in `as`) are expanded so that each alternative binds its own captures."""
+        if isinstance(p, ast.MatchOr):
+            return [a for q in p.patterns for a in alternatives(q)]
+        return [p]
+
+    try:
+        arms = []  # (test, captures, guard, body)
+        for case in st.cases:
+            for alt in alternatives(case.pattern):
+                t, c = pat(alt, subj_name())
+                arms.append((t, c, case.guard, case.body))
+    except _MatchUnsupported as e:
+        raise AnalysisError(f"unsupported match pattern at {fi.loc(st)}: {e}")
+    # if t1: <captures>; if guard: body; matched ... -- guards may fall through to the next case, so a flag variable carries "done"
+    done = f"{tmp}_done"
+    out = [ast.Assign(targets=[ast.Name(id=done, ctx=ast.Store())], value=ast.Constant(value=False))]
+    for t, c, guard, body in arms:
+        inner = [ast.Assign(targets=[ast.Name(id=n, ctx=ast.Store())], value=v) for n, v in c]
+        run = [ast.Assign(targets=[ast.Name(id=done, ctx=ast.Store())], value=ast.Constant(value=True))] + list(body)
+        inner.append(ast.If(test=guard, body=run, orelse=[]) if guard is not None else None)
+        if inner[-1] is None:
+            inner = inner[:-1] + run
+        test = ast.BoolOp(op=ast.And(), values=[ast.UnaryOp(op=ast.Not(), operand=ast.Name(id=done, ctx=ast.Load())), t])
+        out.append(ast.If(test=test, body=inner, orelse=[]))
+    for n in out:
+        for sub in ast.walk(n):
+            if isinstance(sub, (ast.expr, ast.stmt)) and getattr(sub, "lineno", None) is None:
+                ast.copy_location(sub, st)
+    return tmp, out
